@@ -434,6 +434,10 @@ def fam_region(case):
 # node weights, area weighted connectivity, link distances
 
 
+NODIR = ("'does not use directionality' measures on a directed graph "
+         "(normalisation by in+out degree: convention open)")
+
+
 def _cmp(viol, key, msg, got, exp, tol):
     try:
         g = np.asarray(got, dtype=float)
@@ -515,8 +519,7 @@ def fam_geo_net(case):
     if awc_lib is not None and awc_lib.shape == (n,):
         deg = [sum(U[i]) for i in range(n)]
         if directed:
-            exc["'does not use directionality' measures on a directed graph "
-                "(normalisation by in+out degree: convention open)"] = 2
+            exc[NODIR] = exc.get(NODIR, 0) + 2
         elif all(deg):
             exp = [math.fsum(awc_lib[j] for j in range(n) if U[i][j]) / deg[i]
                    for i in range(n)]
@@ -554,8 +557,7 @@ def fam_geo_net(case):
             ("outaverage_link_distance", (), G.average_link_distance(Al, Dl)),
             ("max_link_distance", (), G.max_link_distance(U, Dl))):
         if directed and name == "average_link_distance":
-            exc["'does not use directionality' measures on a directed graph "
-                "(normalisation by in+out degree: convention open)"] += 1
+            exc[NODIR] = exc.get(NODIR, 0) + 1
             continue
         ev += 1
         try:
@@ -572,8 +574,7 @@ def fam_geo_net(case):
             ("outconnectivity_weighted_distance", Al, None)):
         exp = G.connectivity_weighted_distance(AA, Dl, w)
         if directed and name == "connectivity_weighted_distance":
-            exc["'does not use directionality' measures on a directed graph "
-                "(normalisation by in+out degree: convention open)"] += 1
+            exc[NODIR] = exc.get(NODIR, 0) + 1
             continue
         ev += 1
         try:
@@ -631,8 +632,7 @@ def fam_spatial_net(case):
             ("outaverage_link_distance", G.average_link_distance(Al, D)),
             ("max_link_distance", G.max_link_distance(U, D))):
         if directed and name == "average_link_distance":
-            exc["'does not use directionality' measures on a directed graph "
-                "(normalisation by in+out degree: convention open)"] = 1
+            exc[NODIR] = exc.get(NODIR, 0) + 1
             continue
         ev += 1
         try:
@@ -647,7 +647,381 @@ def fam_spatial_net(case):
             "sig": (tuple(idx), directed, mask)}
 
 
-FAMILIES = {"ang_pairs": fam_ang, "ang_triples": fam_ang, "ang_full": fam_ang,
+# ---------------------------------------------------------------------------
+# scale family: a fixed list of larger structured inputs (beyond the row
+# blocks of 128 / 256 and the int16 flat index 32768 = 182^2), judged by the
+# same closed forms, vectorised in float64
+
+REG_SHAPES = {130: (10, 13), 209: (11, 19), 300: (12, 25), 520: (20, 26)}
+TIME_AXIS = [1.9e6 + 6.0 * k for k in range(4)]      # "hours since 1800"
+LG = "large-grid"
+
+
+def _scale_points(name, n):
+    """(lat, lon) lists in degrees."""
+    if name == "regular":
+        a, b = REG_SHAPES[n]
+        lat = [-90.0 + 180.0 * i / (a - 1) for i in range(a)]
+        lon = [-180.0 + 360.0 * j / (b - 1) for j in range(b)]
+        return [(la, lo) for la in lat for lo in lon]
+    return [(math.degrees(math.asin(2 * (i + 0.5) / n - 1)),
+             (i * 137.50776405) % 360.0 - 180.0) for i in range(n)]
+
+
+def _scale_xyz(n, dim, offset=0.0):
+    """Deterministic scattered dyadic coordinates; `offset` shifts the first
+    coordinate to the magnitude of a time axis in hours."""
+    pts = []
+    if dim == 1 and offset:
+        return [[offset + 6.0 * i] for i in range(n)]     # 6-hourly axis
+    for i in range(n):
+        c = [offset + ((i * 37) % 101) / 4.0 - 10.0,
+             ((i * 53) % 89) / 8.0, float((i * i) % 97 - 40)]
+        pts.append(c[:dim])
+    return pts
+
+
+def _ring_chords(n, directed):
+    A = np.zeros((n, n), dtype=np.int8)
+    links = [(i, (i + 1) % n) for i in range(n)]
+    links += [(i, (i + n // 3) % n) for i in range(0, n, 3)]
+    links += [(n - 1, n // 2), (n - 2, 1)]
+    for k, (i, j) in enumerate(links):
+        if i == j:
+            continue
+        A[i, j] = 1
+        if not directed or k % 6 == 0:
+            A[j, i] = 1
+    return A
+
+
+def _scale_geogrid(pts):
+    from pyunicorn.core import GeoGrid
+    return GeoGrid(np.array(TIME_AXIS), np.array([p[0] for p in pts]),
+                   np.array([p[1] for p in pts]), silence_level=2)
+
+
+def _scale_grid(pts):
+    from pyunicorn.core import Grid
+    return Grid(np.array(TIME_AXIS), np.array(pts, dtype=float).T,
+                silence_level=2)
+
+
+def _metric_checks(Df, T, cls, pts, viol):
+    """Triangle inequality over all triples, vectorised."""
+    n = len(Df)
+    for b in range(n):
+        bad = Df > Df[:, [b]] + Df[[b], :] + T + T[:, [b]] + T[[b], :]
+        if np.any(bad):
+            a, c = np.argwhere(bad)[0]
+            viol.append(V("%s:triangle:%s" % (cls, LG),
+                          "points %s" % ([pts[a], pts[b], pts[c]],),
+                          [Df[a, c], Df[a, b], Df[b, c]],
+                          "d(a,c) <= d(a,b)+d(b,c)+accepted errors"))
+            return
+    return
+
+
+def _scale_geo_dist(name, n):
+    pts = _scale_points(name, n)
+    grid = _scale_geogrid(pts)
+    viol = []
+    D = grid.angular_distance()
+    lat, lon = G.np_stored([p[0] for p in pts]), \
+        G.np_stored([p[1] for p in pts])
+    if not (np.array_equal(np.asarray(grid.lat_sequence(), float), lat) and
+            np.array_equal(np.asarray(grid.lon_sequence(), float), lon)):
+        viol.append(V("GeoGrid.lat_sequence:value:" + LG, "", None, None))
+    O = G.np_angles(lat, lon)
+    T = G.np_ang_tol(O)
+    cls = "GeoGrid.angular_distance"
+    if D.shape != (n, n) or not np.all(np.isfinite(D)):
+        viol.append(V(cls + ":nan:" + LG, "%s grid, %d nodes" % (name, n),
+                      D.shape, "finite (n,n) matrix"))
+        return viol, n * n, "nan"
+    if not np.array_equal(_bits(D), _bits(D.T)):
+        i, j = np.argwhere(_bits(D) != _bits(D.T))[0]
+        viol.append(V(cls + ":asymmetric:" + LG, "nodes %d,%d: %s %s" % (
+            i, j, pts[i], pts[j]), [D[i, j], D[j, i]], "bitwise symmetric"))
+    Df = D.astype(float)
+    if np.any(Df < 0) or np.any(Df > G.PI32):
+        viol.append(V(cls + ":range:" + LG, "", [Df.min(), Df.max()],
+                      "[0, float32(pi)]"))
+    bad = ~(np.abs(Df - O) <= T)
+    if np.any(bad):
+        for i, j in np.argwhere(bad)[:50]:
+            key = (cls + ":self-distance:" + LG if i == j else
+                   "%s:value:%s:%s" % (cls, G.angle_class(O[i, j]), LG))
+            if not any(v["key"] == key for v in viol):
+                viol.append(V(key, "nodes %d -> %d of %d: %s -> %s, accepted "
+                              "error %.3g" % (i, j, n, pts[i], pts[j],
+                                              T[i, j]), Df[i, j], O[i, j]))
+    _metric_checks(Df, T, cls, pts, viol)
+    return viol, n * n + n ** 3, (name, n, float(np.max(np.abs(Df - O) / T)))
+
+
+def _scale_geo_lookup(name, n):
+    pts = _scale_points(name, n)
+    grid = _scale_geogrid(pts)
+    viol = []
+    lat, lon = G.np_stored([p[0] for p in pts]), \
+        G.np_stored([p[1] for p in pts])
+    queries = [tuple(map(float, q)) for q in ALPHABET[:NA]] + \
+        [tuple(map(float, q)) for q in EXTRA_QUERIES] + \
+        [(float(lat[i]), float(lon[i])) for i in range(0, n, 7)] + \
+        [(float(lat[n - 1]), float(lon[n - 1])),
+         (float(lat[n - 2]) + 0.3, float(lon[n - 2]) - 0.2)]
+    th = G.np_angles(lat, lon, [q[0] for q in queries],
+                     [q[1] for q in queries])
+    sig = []
+    for k, q in enumerate(queries):
+        try:
+            r = int(grid.node_number(lat_node=q[0], lon_node=q[1]))
+        except Exception as ex:
+            viol.append(V("GeoGrid.node_number:raises:" + LG, "query %s: %r"
+                          % (q, ex), repr(ex), "an index"))
+            continue
+        best = float(th[:, k].min())
+        sig.append(r)
+        if not (0 <= r < n and th[r, k] <= best + G.ang_tol(best) +
+                G.ang_tol(float(th[r, k]))):
+            viol.append(V("GeoGrid.node_number:not-nearest:" + LG,
+                          "%s grid of %d nodes, query %s: returned node at "
+                          "%.9g, nearest (node %d) at %.9g" % (
+                              name, n, q, th[r, k] if 0 <= r < n else -1,
+                              int(th[:, k].argmin()), best), r,
+                          int(th[:, k].argmin())))
+    return viol, len(queries), (name, n, tuple(sig))
+
+
+def _scale_geo_net(name, n, directed):
+    from pyunicorn.core import GeoNetwork
+    pts = _scale_points(name, n)
+    grid = _scale_geogrid(pts)
+    A = _ring_chords(n, directed)
+    viol = []
+    tag = ("directed" if directed else "undirected") + ":" + LG
+    net = GeoNetwork(grid, adjacency=A, directed=bool(directed),
+                     node_weight_type="surface", silence_level=3)
+    w = np.array([G.cos_lat(p[0]) for p in pts])
+    msg = "%s grid, ring with chords on %d nodes" % (name, n)
+    ev = 0
+
+    def cmp(key, got, exp, tol):
+        nonlocal ev
+        ev += 1
+        g = np.asarray(got, dtype=float)
+        e = np.asarray(exp, dtype=float)
+        if g.shape != e.shape or not np.all(np.abs(g - e) <= tol):
+            k = int(np.argmax(np.abs(g - e) - tol)) if g.shape == e.shape \
+                else -1
+            viol.append(V(key, "%s; worst node %d" % (msg, k),
+                          g[k] if k >= 0 else g.shape,
+                          e[k] if k >= 0 else e.shape))
+            return False
+        return True
+    if not cmp("GeoGrid.cos_lat:value:" + LG, grid.cos_lat(), w, G.COS_TOL):
+        return viol, ev, "cos_lat"
+    cmp("GeoNetwork.node_weights:value:surface:" + LG, net.node_weights, w,
+        G.COS_TOL)
+    norm = float(w.sum())
+    Af = A.astype(float)
+    e_in, e_out = Af.T @ w / norm, Af @ w / norm
+    k_in, k_out = Af.sum(axis=0), Af.sum(axis=1)
+
+    def atol(k, e):
+        return (k + e * n) * G.COS_TOL / norm + 2e-6 * e + 1e-9
+    lib_in = net.inarea_weighted_connectivity()
+    lib_out = net.outarea_weighted_connectivity()
+    cmp("GeoNetwork.inarea_weighted_connectivity:value:" + tag, lib_in, e_in,
+        atol(k_in, e_in))
+    cmp("GeoNetwork.outarea_weighted_connectivity:value:" + tag, lib_out,
+        e_out, atol(k_out, e_out))
+    tot = np.asarray(lib_in, float)
+    if directed:
+        tot = tot + np.asarray(lib_out, float)
+    cmp("GeoNetwork.area_weighted_connectivity:value:" + tag,
+        net.area_weighted_connectivity(), tot, 1e-9 + 1e-6 * np.abs(tot))
+    D = np.asarray(grid.angular_distance(), dtype=float)
+    if not np.all(np.isfinite(D)):
+        viol.append(V("GeoGrid.angular_distance:nan:" + LG, msg, None,
+                      "finite"))
+        return viol, ev, "nan"
+
+    def ald(M):
+        k = M.sum(axis=1)
+        return np.where(k > 0, (D * M).sum(axis=1) / np.maximum(k, 1), 0.0)
+
+    def dtol(e):
+        return 2e-6 + 2e-5 * np.abs(e)
+    U = ((Af + Af.T) > 0).astype(float)
+    for name_, M in (("inaverage_link_distance", Af.T),
+                     ("outaverage_link_distance", Af)) + (
+            () if directed else (("average_link_distance", U),)):
+        e = ald(M)
+        cmp("GeoNetwork.%s:value:%s" % (name_, tag), getattr(net, name_)(),
+            e, dtol(e))
+    e = (D * U).max(axis=1)
+    cmp("GeoNetwork.max_link_distance:value:" + tag, net.max_link_distance(),
+        e, dtol(e))
+    for name_, M in (("inconnectivity_weighted_distance", Af.T),
+                     ("outconnectivity_weighted_distance", Af)):
+        k = M.sum(axis=1)
+        e = np.where(k > 0, (M * w[None, :] * D).sum(axis=1) /
+                     (np.maximum(k, 1) * norm), 0.0)
+        cmp("GeoNetwork.%s:value:%s" % (name_, tag), getattr(net, name_)(),
+            e, math.pi * (1 + n * np.abs(e)) * G.COS_TOL / norm + dtol(e))
+    return viol, ev, (name, n, directed, round(float(e_in[n - 1]), 7))
+
+
+def _scale_rect():
+    from pyunicorn.core import Grid, GeoGrid
+    viol = []
+    a = [-90.0 + 180.0 * i / 11 for i in range(12)]
+    b = [-180.0 + 360.0 * j / 24 for j in range(25)]
+    exp = G.product_order([a, b])
+    lib = np.asarray(Grid.coord_sequence_from_rect_grid(
+        [np.array(a), np.array(b)]))
+    if not _eq_exact(lib, exp):
+        viol.append(V("Grid.coord_sequence_from_rect_grid:value:2-axes:" + LG,
+                      "axes of 12 x 25", lib.shape, np.asarray(exp).shape))
+        return viol, 1, "rect"
+    lib32 = lib.astype(np.float32)
+    g1 = Grid.RegularGrid(np.array(TIME_AXIS), [np.array(a), np.array(b)],
+                          silence_level=2)
+    g2 = GeoGrid.RegularGrid(np.array(TIME_AXIS), (np.array(a), np.array(b)),
+                             silence_level=2)
+    if g1.N != 300 or not _eq_exact(g1.sequence(0), lib32[0]) or \
+            not _eq_exact(g1.sequence(1), lib32[1]):
+        viol.append(V("Grid.RegularGrid:value:" + LG, "axes 12 x 25", g1.N,
+                      300))
+    if g2.N != 300 or not _eq_exact(g2.lat_sequence(), lib32[0]) or \
+            not _eq_exact(g2.lon_sequence(), lib32[1]):
+        viol.append(V("GeoGrid.RegularGrid:value:" + LG, "axes 12 x 25",
+                      g2.N, 300))
+    pts = list(zip(exp[0], exp[1]))
+    Dg, Dp = g2.angular_distance(), _scale_geogrid(pts).angular_distance()
+    if Dg.shape != Dp.shape or not np.array_equal(_bits(Dg), _bits(Dp)):
+        viol.append(V("GeoGrid.RegularGrid:distance-order:" + LG,
+                      "axes 12 x 25", Dg.shape, Dp.shape))
+    De = g1.euclidean_distance()
+    Dq = _scale_grid([list(p) for p in pts]).euclidean_distance()
+    if De.shape != Dq.shape or not np.array_equal(_bits(De), _bits(Dq)):
+        viol.append(V("Grid.RegularGrid:distance-order:" + LG,
+                      "axes 12 x 25", De.shape, Dq.shape))
+    axes = [[0.0, 5.0, -2.5, 60.0, 1.0], [float(k) for k in range(6)],
+            [10.0 * k for k in range(10)]]
+    got = np.asarray(Grid.coord_sequence_from_rect_grid(
+        [np.array(x) for x in axes]))
+    e3 = G.product_order(axes)
+    if got.shape != (3, 300) or sorted(map(tuple, got.T.tolist())) != \
+            sorted(zip(*e3)):
+        viol.append(V("Grid.coord_sequence_from_rect_grid:value:3-axes:" + LG,
+                      "axes 5 x 6 x 10: not the Cartesian product",
+                      got.shape, (3, 300)))
+    return viol, 7, "rect"
+
+
+def _scale_euc(n, dim, offset):
+    pts = _scale_xyz(n, dim, offset)
+    grid = _scale_grid(pts)
+    viol = []
+    cls = "Grid.euclidean_distance"
+    D = grid.euclidean_distance()
+    X = G.np_stored(pts)
+    E = G.np_euclid(X)
+    T = G.euc_tol(E, dim)
+    if D.shape != (n, n) or not np.all(np.isfinite(D)):
+        viol.append(V(cls + ":nan:" + LG, "%d points, dim %d" % (n, dim),
+                      D.shape, "finite (n,n) matrix"))
+        return viol, 1, "nan"
+    if not np.array_equal(_bits(D), _bits(D.T)):
+        viol.append(V(cls + ":asymmetric:" + LG, "%d points, dim %d" % (
+            n, dim), None, "bitwise symmetric"))
+    Df = D.astype(float)
+    if np.any(np.diag(Df) != 0):
+        viol.append(V(cls + ":self-distance:" + LG, "", np.diag(Df).max(), 0))
+    bad = ~(np.abs(Df - E) <= T)
+    if np.any(bad):
+        i, j = np.argwhere(bad)[0]
+        viol.append(V("%s:value:dim%d:%s" % (cls, dim, LG),
+                      "nodes %d -> %d of %d: %s -> %s" % (
+                          i, j, n, X[i].tolist(), X[j].tolist()),
+                      Df[i, j], E[i, j]))
+    _metric_checks(Df, T, cls, pts, viol)
+    # nearest-node lookups, exact rational oracle
+    queries = [X[i].tolist() for i in range(0, n, 7)] + \
+        [X[n - 1].tolist(), (X[n - 2] + 0.25).tolist(),
+         (X[0] - 1000.0).tolist(), (X[n // 2] + 0.125).tolist()]
+    ev = n * n + n ** 3
+    for q in queries:
+        ev += 1
+        try:
+            r = int(grid.node_number(tuple(q)))
+        except Exception as ex:
+            viol.append(V("Grid.node_number:raises:" + LG, "query %s: %r" % (
+                q, ex), repr(ex), "an index"))
+            continue
+        d2 = [G.euclid_sq_exact(p, q) for p in pts]
+        m = min(d2)
+        if not (0 <= r < n and d2[r] == m):
+            viol.append(V("Grid.node_number:not-nearest:dim%d:%s" % (dim, LG),
+                          "%d points, query %s" % (n, q), r, d2.index(m)))
+    return viol, ev, (n, dim, offset, float(Df.max()))
+
+
+def _scale_euc_net(n, directed):
+    from pyunicorn.core import SpatialNetwork
+    pts = _scale_xyz(n, 3)
+    grid = _scale_grid(pts)
+    A = _ring_chords(n, directed)
+    net = SpatialNetwork(grid, adjacency=A, directed=bool(directed),
+                         silence_level=3)
+    D = np.asarray(grid.euclidean_distance(), dtype=float)
+    Af = A.astype(float)
+    U = ((Af + Af.T) > 0).astype(float)
+    viol = []
+    tag = ("directed" if directed else "undirected") + ":" + LG
+    ev = 0
+    for name_, M in (("inaverage_link_distance", Af.T),
+                     ("outaverage_link_distance", Af)) + (
+            () if directed else (("average_link_distance", U),)):
+        k = M.sum(axis=1)
+        e = np.where(k > 0, (D * M).sum(axis=1) / np.maximum(k, 1), 0.0)
+        g = np.asarray(getattr(net, name_)(), dtype=float)
+        ev += 1
+        if g.shape != e.shape or not np.all(
+                np.abs(g - e) <= 2e-6 + 2e-5 * np.abs(e)):
+            viol.append(V("SpatialNetwork.%s:value:%s" % (name_, tag),
+                          "ring with chords on %d nodes" % n, g[-3:], e[-3:]))
+    e = (D * U).max(axis=1)
+    g = np.asarray(net.max_link_distance(), dtype=float)
+    ev += 1
+    if g.shape != e.shape or not np.all(np.abs(g - e) <= 2e-6 + 2e-5 * e):
+        viol.append(V("SpatialNetwork.max_link_distance:value:" + tag,
+                      "ring with chords on %d nodes" % n, g[-3:], e[-3:]))
+    return viol, ev, (n, directed)
+
+
+def fam_scale(case):
+    kind = case[0]
+    if kind == "geo_dist":
+        viol, ev, sig = _scale_geo_dist(case[1], case[2])
+    elif kind == "geo_lookup":
+        viol, ev, sig = _scale_geo_lookup(case[1], case[2])
+    elif kind == "geo_net":
+        viol, ev, sig = _scale_geo_net(case[1], case[2], case[3])
+    elif kind == "rect":
+        viol, ev, sig = _scale_rect()
+    elif kind == "euc":
+        viol, ev, sig = _scale_euc(case[1], case[2], case[3])
+    else:
+        viol, ev, sig = _scale_euc_net(case[1], case[2])
+    return {"viol": viol, "evals": ev, "sig": (kind, sig)}
+
+
+FAMILIES = {"scale": fam_scale, "ang_pairs": fam_ang,
+            "ang_triples": fam_ang, "ang_full": fam_ang,
             "euc": fam_euc, "euc_lookup": fam_euc_lookup,
             "geo_lookup": fam_geo_lookup, "rect": fam_rect,
             "rect3": fam_rect3, "region": fam_region, "geo_net": fam_geo_net,
@@ -767,6 +1141,37 @@ def run(ctx):
                 cases.append([list(t), d, m])
     ctx.explore("spatial_net", cases, chunk=64,
                 desc="Euclidean link distances on SpatialNetwork")
+    # scale: fixed list of larger structured inputs, simplest first
+    G.selfcheck_np()
+    sizes = [130, 209, 300] + ([520] if thorough else [])
+    cases = []
+    for n in sizes:
+        for name in ("regular", "scattered"):
+            cases.append(["geo_dist", name, n])
+    if thorough:
+        cases.append(["geo_dist", "scattered", 777])
+    for n in sizes:
+        for name in ("regular", "scattered"):
+            cases.append(["geo_lookup", name, n])
+    for n in sizes:
+        for name in ("regular", "scattered"):
+            for d in (0, 1):
+                cases.append(["geo_net", name, n, d])
+    cases.append(["rect"])
+    for n in sizes:
+        cases.append(["euc", n, 3, 0.0])
+    cases += [["euc", 300, 1, 1.9e6], ["euc", 300, 2, 0.0],
+              ["euc", 300, 3, 1.9e6]]
+    if thorough:
+        cases.append(["euc", 777, 3, 0.0])
+    for n in sizes:
+        for d in (0, 1):
+            cases.append(["euc_net", n, d])
+    ctx.explore("scale", cases, chunk=1,
+                desc="grids of 130..300 (thorough 520, 777) nodes: full "
+                "distance matrices, lookups, 12x25 rectangular grid, "
+                "weights / AWC / link distances on rings with chords")
+    ctx.notes["scale_sizes"] = sizes
     ctx.notes.update({"alphabet_points": NT if thorough else NA,
                       "sub_alphabet": len(SUB),
                       "euclidean_dims": "1..4", "graphs_nodes_max": 3,
